@@ -302,6 +302,8 @@ class ScheduleEnum(Suite):
                     nd = k + (1 if disc is not None else 0)
                     for n in range(1, smax + 1):
                         for sc in itertools.product(range(len(OPS)), repeat=n):
+                            if n == 4 and any(i >= 4 for i in sc):
+                                continue  # 4-step scripts (thorough) over the four basic operations only
                             script = [OPS[i] for i in sc]
                             for w in words(nd, n):
                                 yield {'capacity': cap, 'k': k, 'disconnect': disc, 'script': script, 'word': w}
